@@ -1,5 +1,7 @@
 """C06 direct comparison on the real code: implicit mode (partial eigenvectors, direct solver) vs the explicit
 computation in the complete eigenbasis.  Structured output as the other harnesses."""
+import os, sys; sys.path.insert(0, os.path.dirname(os.path.abspath(__file__)))
+from common import case_rnd, skip
 import sys, json, random, time, warnings
 import numpy as np
 from scipy import sparse
@@ -31,6 +33,8 @@ def dense(v, shape):
 def main(seed, ncases, driver, out):
     rnd = random.Random(seed); failures = []; dist = {}; samples = []; evals = 0; distinct = 0; worst = 0.0
     for c in range(ncases):
+        if skip(c): continue
+        rnd = case_rnd(seed, c)
         P = gen(rnd); q = P["q"]; N = P["N"]
         H = {(0,): sparse.csr_array(P["H0"]), (1,): sparse.csr_array(P["H1"])}
         if P["H2"] is not None: H[(2,)] = sparse.csr_array(P["H2"])
